@@ -52,3 +52,18 @@ PROPS["C18"] = dict(
         P("C18.exhaustive", "kad", "TestC18Exhaustive"),
     ],
 )
+
+PROPS["C20"] = dict(
+    level="exploration",
+    technique="property-based testing (rapid) over simulated networks with adversarial responders against a whole-network oracle and per-node ask counters",
+    level_text="Generated networks, routing tables, initial sets and honest/failing/adversarial responder behaviours drive the four iterative operations; the harness implements the RPC functions, counts asks per node id and checks the result struct against what it knows about the whole network. Holds on everything generated.",
+    level_note="Responder behaviours come from a fixed repertoire (cyclic, self-referential, huge, fabricated from a finite pool, farther-only, bogus target info); fabricated ids come from a finite pool so termination is well-defined. The all-zero PeerID is excluded as a node id (library sentinel for 'none').",
+    design_ref="4/C20",
+    assumptions=["the all-zero PeerID is the library's 'no peer' sentinel and is not used as a node id", "adversarial responders draw fabricated ids from a finite pool"],
+    subs=[
+        R("C20.find_node", "kad", "TestC20FindNode", 1500, 60000),
+        R("C20.join", "kad", "TestC20Join", 1500, 60000),
+        R("C20.get", "kad", "TestC20Get", 1500, 60000),
+        R("C20.put", "kad", "TestC20Put", 1500, 60000),
+    ],
+)
